@@ -51,6 +51,22 @@ type Named struct {
 	Arr   Arr
 }
 
+// Wide has many fields of mixed kinds; later positions hold booleans and small integers.
+type Wide struct {
+	A int
+	B string
+	C float64
+	D []int
+	E bool
+	F bool
+	G uint8
+	H map[string]bool
+	I *bool
+	J [2]bool
+	K Bool
+	L int8
+}
+
 type Embedded struct {
 	Point
 	Label string
